@@ -362,6 +362,20 @@ def r7b(ctx):
         ctx.ob("R7", "TextEdit text in %s#%d" % (f.id, sum(1 for x in prog.who_calls(r"lsp_types::TextEdit::new$") if x.fn is f and x.bb < c.bb)), ok,
                "= RewriteData.fixed" if ok else "the quick-fix text is not RewriteData.fixed as it is (passes through %s)" % sorted(set(foreign)), where=f.loc(c.line))
     ctx.floor("R7", "downstream uses of the carried replacement text", n, 3)
+    # the text itself is produced by ONE template mechanism for string-form and object-form fixes: both reach the template scanner with the
+    # transformation names, and the scanner looks them up as a set (the C12 R4 obligations).  A form-specific preparation (sorted names for
+    # one form only + a binary search) makes the two forms — and with a HashMap-ordered name list, two processes — expand the same fix
+    # differently.
+    from . import c12
+    from ..core import Ctx
+    sub12 = Ctx("C12", ctx.tier, prog)
+    c12.r4(sub12)
+    n12 = 0
+    for o in sub12.obligations:
+        if o["rule"] == "R4":
+            n12 += 1
+            ctx.ob("R7", "fix text/" + o["key"].split(":", 1)[1], o["ok"], o["detail"], where=o.get("where"), nontrivial=o.get("nontrivial", True))
+    ctx.floor("R7", "template obligations shared with C12 R4", n12, 3)
 
 
 def short_trait(t):
